@@ -159,6 +159,7 @@ def output_algorithm(out: OutputBuffer, alg_db: Dict[str, Dict[str, List[List[Op
         alg_name = alg_name_original
 
     alg_name = alg_name_with_size if alg_name_with_size is not None else alg_name
+    alg_name = Utils.to_print_ascii(alg_name)  # Names are shown in printable ASCII only: they come from the peer and must not carry terminal control sequences (the JSON output escapes them by itself).
     first = True
     use_good_for_all = False
     for level, text in texts:
@@ -615,7 +616,7 @@ def output(out: OutputBuffer, aconf: AuditConf, banner: Optional[Banner], header
         # Build & write the JSON struct.
         out.info(json.dumps(build_struct(aconf.host + ":" + str(aconf.port), banner, kex=kex, pkm=pkm, client_host=client_host, software=software, algorithms=algs, algorithm_recommendation_suppress_list=algorithm_recommendation_suppress_list, additional_notes=additional_notes), indent=4 if aconf.json_print_indent else None, sort_keys=True), always_print=True)  # The JSON document is not subject to the minimum output level.
     elif len(unknown_algorithms) > 0:  # If we encountered any unknown algorithms, ask the user to report them.
-        out.warn("\n\n!!! WARNING: unknown algorithm(s) found!: %s.  If this is the latest version of ssh-audit (see <https://github.com/jtesta/ssh-audit/releases>), please create a new Github issue at <https://github.com/jtesta/ssh-audit/issues> with the full output above.\n" % ','.join(unknown_algorithms))
+        out.warn("\n\n!!! WARNING: unknown algorithm(s) found!: %s.  If this is the latest version of ssh-audit (see <https://github.com/jtesta/ssh-audit/releases>), please create a new Github issue at <https://github.com/jtesta/ssh-audit/issues> with the full output above.\n" % Utils.to_print_ascii(','.join(unknown_algorithms)))
 
     return program_retval
 
